@@ -1,6 +1,11 @@
 #!/bin/bash
 # run_seeded.sh [name...]: applies each seeded change to /repo, runs the check of its property (and any extra
 # properties given in SEED_PROPS), reverts, and prints whether a VIOLATION was reported.
+# evidence and replay files written while a seeded change is applied describe that changed tree: keep the ones of
+# the unchanged tree
+keep=$(mktemp -d /tmp/govc-evidence-keep.XXXXXX)
+cp -a /verif/evidence/. $keep/ 2>/dev/null
+trap 'rm -rf /verif/evidence; mkdir -p /verif/evidence; cp -a $keep/. /verif/evidence/; rm -rf $keep' EXIT
 cd /verif/seeded
 names="$@"; [ -z "$names" ] && names=$(ls)
 claimed=$(python3 -c "import json;print(' '.join(c['property_id'] for c in json.load(open('/verif/MANIFEST.json'))['checks']))")
